@@ -40,6 +40,9 @@ type c17Probe struct {
 func c17Both(n int, setup func() (f, g func())) {
 	for i := 0; i < n; i++ {
 		f, g := setup()
+		if i%2 == 1 {
+			f, g = g, f // alternate which side is started first
+		}
 		var wg sync.WaitGroup
 		wg.Add(2)
 		go func() { defer wg.Done(); f() }()
@@ -99,13 +102,13 @@ func c17Probes() []c17Probe {
 	weights := map[string]float32{c17LogURL(1): 2, c17LogURL(2): 1}
 	return []c17Probe{
 		{"session||SetLogWeights", []string{"LogGroupInfo.GetSubmissionSession"}, []string{"LogGroupInfo.SetLogWeights"}, func(t *testing.T) {
-			c17Both(80, func() (func(), func()) {
+			c17Both(200, func() (func(), func()) {
 				g := c17ProbeGroup()
 				return func() { g.GetSubmissionSession() }, func() { _ = g.SetLogWeights(weights) }
 			})
 		}},
 		{"session||SetLogWeight", []string{"LogGroupInfo.GetSubmissionSession"}, []string{"LogGroupInfo.SetLogWeight"}, func(t *testing.T) {
-			c17Both(80, func() (func(), func()) {
+			c17Both(200, func() (func(), func()) {
 				g := c17ProbeGroup()
 				return func() { g.GetSubmissionSession() }, func() { _ = g.SetLogWeight(c17LogURL(1), 3) }
 			})
